@@ -818,9 +818,27 @@ _FLOAT_FUN = {
 }
 
 
-def eval_float(roots, env, funs=None):
+def uf_interpretation(name):
+    """a fixed smooth positive interpretation of the uninterpreted function `name` (deterministic in the name).  A claim about terms
+    with uninterpreted functions is a claim for EVERY interpretation, so a failure under this one is a genuine refutation."""
+    import zlib
+
+    h = zlib.crc32(name.encode())
+    ks = [0.37 + ((h >> (3 * i)) & 7) * 0.211 for i in range(8)]
+    c0 = (h % 1000) / 1000.0
+
+    def f(*args):
+        s = c0
+        for i, x in enumerate(args):
+            s += ks[i % 8] * (i + 1) * x
+        return 1.5 + math.sin(s)
+
+    return f
+
+
+def eval_float(roots, env, funs=None, interpret_uf=False):
     """evaluate terms at a float point; env: {var name: float}.  Returns list.
-    sqrt of a (slightly) negative number gives nan."""
+    sqrt of a (slightly) negative number gives nan.  interpret_uf: functions named uf_* get uf_interpretation(name)."""
     memo = {}
     ff = dict(_FLOAT_FUN)
     if funs:
@@ -865,7 +883,10 @@ def eval_float(roots, env, funs=None):
                 elif op == "not":
                     v = not a[0]
                 elif op == "f":
-                    v = ff[a[0]](*a[1:])
+                    fname = a[0]
+                    if fname not in ff and interpret_uf and fname.startswith("uf_"):
+                        ff[fname] = uf_interpretation(fname)
+                    v = ff[fname](*a[1:])
                 else:
                     raise KeyError(op)
             except (ValueError, OverflowError, ZeroDivisionError):
